@@ -11,44 +11,44 @@ variable {τ : Type} [Sub τ] [LE τ] [LT τ] [DecidableLE τ] [DecidableLT τ] 
 def evalState (now : τ) (s : St τ) : St τ :=
   { s with elapsed := now - s.stamp, recurred := s.recurred + 1 }
 
-theorem segue_cases (prog : List (List (Trans τ))) (now : τ) (s : St τ) :
-    (∃ t, firstTrans (evalState now s) (prog.getD s.active []) = some t ∧
-      segue prog now s = ⟨now, some (now - s.stamp), some (s.recurred + 1), true, enter now t.far⟩) ∨
-    (firstTrans (evalState now s) (prog.getD s.active []) = none ∧
-      segue prog now s = ⟨now, some (now - s.stamp), some (s.recurred + 1), false, evalState now s⟩) := by
-  cases h : firstTrans (evalState now s) (prog.getD s.active []) with
+theorem segue_cases (tr : Nat → List (Trans τ)) (now : τ) (s : St τ) :
+    (∃ t, firstTrans (evalState now s) (tr s.active) = some t ∧
+      segue tr now s = ⟨now, some (now - s.stamp), some (s.recurred + 1), true, enter now t.far⟩) ∨
+    (firstTrans (evalState now s) (tr s.active) = none ∧
+      segue tr now s = ⟨now, some (now - s.stamp), some (s.recurred + 1), false, evalState now s⟩) := by
+  cases h : firstTrans (evalState now s) (tr s.active) with
   | some t => left; refine ⟨t, rfl, ?_⟩; simp only [segue]; unfold evalState at h; rw [h]
   | none => right; refine ⟨rfl, ?_⟩; simp only [segue]; unfold evalState at h; rw [h]; rfl
 
-theorem segue_now (prog : List (List (Trans τ))) (now : τ) (s : St τ) : (segue prog now s).now = now := by
-  rcases segue_cases prog now s with ⟨t, _, h⟩ | ⟨_, h⟩ <;> rw [h]
+theorem segue_now (tr : Nat → List (Trans τ)) (now : τ) (s : St τ) : (segue tr now s).now = now := by
+  rcases segue_cases tr now s with ⟨t, _, h⟩ | ⟨_, h⟩ <;> rw [h]
 
-theorem segue_eval (prog : List (List (Trans τ))) (now : τ) (s : St τ) :
-    (segue prog now s).evalElapsed = some (now - s.stamp) ∧
-    (segue prog now s).evalRecurred = some (s.recurred + 1) := by
-  rcases segue_cases prog now s with ⟨t, _, h⟩ | ⟨_, h⟩ <;> rw [h] <;> exact ⟨rfl, rfl⟩
+theorem segue_eval (tr : Nat → List (Trans τ)) (now : τ) (s : St τ) :
+    (segue tr now s).evalElapsed = some (now - s.stamp) ∧
+    (segue tr now s).evalRecurred = some (s.recurred + 1) := by
+  rcases segue_cases tr now s with ⟨t, _, h⟩ | ⟨_, h⟩ <;> rw [h] <;> exact ⟨rfl, rfl⟩
 
-theorem segue_stay (prog : List (List (Trans τ))) (now : τ) (s : St τ)
-    (h : (segue prog now s).entered = false) :
-    (segue prog now s).after.stamp = s.stamp ∧ (segue prog now s).after.recurred = s.recurred + 1 ∧
-    (segue prog now s).after.active = s.active ∧ (segue prog now s).after.elapsed = now - s.stamp := by
-  rcases segue_cases prog now s with ⟨t, _, h'⟩ | ⟨_, h'⟩
+theorem segue_stay (tr : Nat → List (Trans τ)) (now : τ) (s : St τ)
+    (h : (segue tr now s).entered = false) :
+    (segue tr now s).after.stamp = s.stamp ∧ (segue tr now s).after.recurred = s.recurred + 1 ∧
+    (segue tr now s).after.active = s.active ∧ (segue tr now s).after.elapsed = now - s.stamp := by
+  rcases segue_cases tr now s with ⟨t, _, h'⟩ | ⟨_, h'⟩
   · rw [h'] at h; cases h
   · rw [h']; exact ⟨rfl, rfl, rfl, rfl⟩
 
-theorem segue_enter (prog : List (List (Trans τ))) (now : τ) (s : St τ)
-    (h : (segue prog now s).entered = true) :
-    (segue prog now s).after.stamp = now ∧ (segue prog now s).after.recurred = 0 ∧
-    (segue prog now s).after.elapsed = 0 := by
-  rcases segue_cases prog now s with ⟨t, _, h'⟩ | ⟨_, h'⟩
+theorem segue_enter (tr : Nat → List (Trans τ)) (now : τ) (s : St τ)
+    (h : (segue tr now s).entered = true) :
+    (segue tr now s).after.stamp = now ∧ (segue tr now s).after.recurred = 0 ∧
+    (segue tr now s).after.elapsed = 0 := by
+  rcases segue_cases tr now s with ⟨t, _, h'⟩ | ⟨_, h'⟩
   · rw [h']; exact ⟨rfl, rfl, rfl⟩
   · rw [h'] at h; cases h
 
 /-- a suffix of a run is a run from the state the preceding observation left -/
-theorem runFrom_split (prog : List (List (Trans τ))) :
+theorem runFrom_split (tr : Nat → List (Trans τ)) :
     ∀ (pre : List (Obs τ)) (s : St τ) (nows : List τ) (o : Obs τ) (rest : List (Obs τ)),
-    runFrom prog s nows = pre ++ o :: rest →
-    ∃ s' now nows', o = segue prog now s' ∧ rest = runFrom prog o.after nows' := by
+    runFrom tr s nows = pre ++ o :: rest →
+    ∃ s' now nows', o = segue tr now s' ∧ rest = runFrom tr o.after nows' := by
   intro pre
   induction pre with
   | nil =>
@@ -67,12 +67,12 @@ theorem runFrom_split (prog : List (List (Trans τ))) :
       exact ih _ _ _ _ h.2
 
 /-- while the outline does not change, the needs see `now - stamp` and one more iteration each tick -/
-theorem runFrom_segment (prog : List (List (Trans τ))) :
+theorem runFrom_segment (tr : Nat → List (Trans τ)) :
     ∀ (mid : List (Obs τ)) (s : St τ) (nows : List τ) (o : Obs τ) (post : List (Obs τ)),
-    runFrom prog s nows = mid ++ o :: post → (∀ m ∈ mid, m.entered = false) →
+    runFrom tr s nows = mid ++ o :: post → (∀ m ∈ mid, m.entered = false) →
     o.evalElapsed = some (o.now - s.stamp) ∧ o.evalRecurred = some (s.recurred + mid.length + 1) ∧
     ∃ s', s'.stamp = s.stamp ∧ s'.recurred = s.recurred + mid.length ∧ s'.active = s.active ∧
-      o = segue prog o.now s' := by
+      o = segue tr o.now s' := by
   intro mid
   induction mid with
   | nil =>
@@ -83,7 +83,7 @@ theorem runFrom_segment (prog : List (List (Trans τ))) :
       simp only [runFrom, List.nil_append, List.cons.injEq] at h
       have ho := h.1.symm
       subst ho
-      have := segue_eval prog now s
+      have := segue_eval tr now s
       rw [segue_now]
       exact ⟨this.1, by simpa using this.2, s, rfl, by simp, rfl, rfl⟩
   | cons m mid ih =>
@@ -92,9 +92,9 @@ theorem runFrom_segment (prog : List (List (Trans τ))) :
     | nil => simp [runFrom] at h
     | cons now nows' =>
       simp only [runFrom, List.cons_append, List.cons.injEq] at h
-      have hm0 : (segue prog now s).entered = false := by
+      have hm0 : (segue tr now s).entered = false := by
         rw [h.1]; exact hm m List.mem_cons_self
-      obtain ⟨h1, h2, h3, _⟩ := segue_stay prog now s hm0
+      obtain ⟨h1, h2, h3, _⟩ := segue_stay tr now s hm0
       have := ih _ _ _ _ h.2 (fun x hx => hm x (List.mem_cons_of_mem _ hx))
       rw [h1, h2, h3] at this
       obtain ⟨a, b, s', c1, c2, c3, c4⟩ := this
@@ -106,14 +106,14 @@ end generic
 section generic
 variable {τ : Type} [Sub τ] [LE τ] [LT τ] [DecidableLE τ] [DecidableLT τ] [OfNat τ 0]
 
-theorem runFrom_nows (prog : List (List (Trans τ))) (s : St τ) (nows : List τ) :
-    (runFrom prog s nows).map (·.now) = nows := by
+theorem runFrom_nows (tr : Nat → List (Trans τ)) (s : St τ) (nows : List τ) :
+    (runFrom tr s nows).map (·.now) = nows := by
   induction nows generalizing s with
   | nil => rfl
   | cons now rest ih => simp only [runFrom, List.map_cons, segue_now, ih]
 
-theorem run_nows (prog : List (List (Trans τ))) (nows : List τ) :
-    (run prog nows).map (·.now) = nows := by
+theorem run_nows (tr : Nat → List (Trans τ)) (nows : List τ) :
+    (run tr nows).map (·.now) = nows := by
   cases nows with
   | nil => rfl
   | cons now rest => simp only [run, List.map_cons, runFrom_nows]
@@ -135,10 +135,10 @@ theorem getElem?_mid {α : Type} (a : List α) (x : α) (b : List α) : (a ++ x 
   simp
 
 /-- the store stamp of the observation at position `pre.length` of a run over `stamps P n` -/
-theorem now_at (prog : List (List (Trans Int))) (P : Int) (n : Nat)
+theorem now_at (tr : Nat → List (Trans Int)) (P : Int) (n : Nat)
     (pre : List (Obs Int)) (o : Obs Int) (post : List (Obs Int))
-    (h : run prog (stamps P n) = pre ++ o :: post) : o.now = pre.length * P := by
-  have h1 := run_nows prog (stamps P n)
+    (h : run tr (stamps P n) = pre ++ o :: post) : o.now = pre.length * P := by
+  have h1 := run_nows tr (stamps P n)
   rw [h] at h1
   have h2 : (stamps P n)[pre.length]? = some o.now := by
     rw [← h1]; simp
